@@ -24,7 +24,12 @@ git apply $SRC/patch.diff || { echo "patch does not apply" | tee -a $LOG; exit 2
 go build ./... 2>&1 | grep '^# ' | sort > /tmp/sv-$ID.build1
 if diff -q /tmp/sv-$ID.build0 /tmp/sv-$ID.build1 >/dev/null; then echo "patched build: same result as baseline" | tee -a $LOG; B1=ok; else echo "patched build DIFFERS: $(diff /tmp/sv-$ID.build0 /tmp/sv-$ID.build1 | head -5)" | tee -a $LOG; B1=bad; fi
 T1=ok
-for p in $PKGS; do f=/tmp/sv-$ID.base.$(echo $p | tr '/.' '__'); go test $GT -count=1 -vet=off -json $p 2>/dev/null | grep '"Action":"pass"' | grep '"Test"' | sed 's/.*"Test":"\([^"]*\)".*/\1/' | sort -u > $f.new; L=$(comm -23 $f $f.new | grep -vE "^($DEMOTESTS)(/|\$)" | tr '\n' ' '); echo "$p: $(wc -l < $f) tests passed before, lost after patch: [$L]" | tee -a $LOG; [ -n "$L" ] && T1=bad; done
+for p in $PKGS; do f=/tmp/sv-$ID.base.$(echo $p | tr '/.' '__'); go test $GT -count=1 -vet=off -json $p 2>/dev/null | grep '"Action":"pass"' | grep '"Test"' | sed 's/.*"Test":"\([^"]*\)".*/\1/' | sort -u > $f.new; L=$(comm -23 $f $f.new | grep -vE "^($DEMOTESTS)(/|\$)" | tr '\n' ' '); echo "$p: $(wc -l < $f) tests passed before, lost after patch: [$L]" | tee -a $LOG
+  if [ -n "$L" ]; then # a test that is flaky on the unchanged tree too: retry the lost top-level tests alone, up to 4 times
+    RX="^($(echo $L | tr ' ' '\n' | cut -d/ -f1 | sort -u | tr '\n' '|' | sed 's/|$//'))\$"; R=bad
+    for k in 1 2 3 4; do if go test $GT -count=1 -vet=off -run "$RX" $p >>$LOG 2>&1; then R=ok; echo "$p: lost tests pass when re-run alone (attempt $k): flaky, not broken by the patch" | tee -a $LOG; break; fi; done
+    [ $R = ok ] || T1=bad
+  fi; done
 echo "== demo on patched tree" | tee -a $LOG
 if (eval "$DEMO") >>$LOG 2>&1; then echo "demo passes WITH the change: BAD" | tee -a $LOG; D1=bad; else echo "demo fails with the change: OK" | tee -a $LOG; D1=ok; fi
 cd /verif; git -C /repo worktree remove --force $W; rm -f /tmp/sv-$ID.base.*
